@@ -54,7 +54,8 @@ def step (_ : Unit) (toks : List String) : Unit × String :=
         let srv : ServerScript := { returnCode := if rc == "none" then none else some (str rc), auth := str sa, enc := str se,
                                     methods := lst sms, ciphers := lst scs, key := keyKind sk 2, replies := replies,
                                     authOK := fun m => okl.contains m,
-                                    hasKeyMsg := if hk == "none" then none else hk.toInt?, postAuth := pa }
+                                    hasKeyMsg := if hk == "none" then none else (if hk.endsWith "r" then (hk.dropRight 1).toInt? else hk.toInt?),
+                                    keyRecord := hk.endsWith "r", postAuth := pa }
         match clientFull cfg srv with
         | .ok o => ((), showOutcome o)
         | .error er => ((), errStr er)
